@@ -12,6 +12,7 @@ import (
 	"math/rand"
 
 	"github.com/invopop/gobl/bill"
+	"github.com/invopop/gobl/currency"
 	"github.com/invopop/gobl/num"
 	"github.com/invopop/gobl/tax"
 	"goblverif/internal/tr"
@@ -641,6 +642,55 @@ func calcRun(w *tr.Writer, d jDoc, reg string, explicitRule bool, meta bool, r *
 			return nil
 		}
 		return x
+	}
+	// converting into another currency gives a new document: the one converted keeps its own figures
+	if r.Intn(3) == 0 {
+		rate := func(from currency.Code) *currency.ExchangeRate {
+			return &currency.ExchangeRate{From: from, To: "MXN", Amount: num.MakeAmount(185000, 4)}
+		}
+		probe := func(kind string, proj func() jRes, conv func() error) {
+			e := calcEvent{K: "convert", Kind: kind, Reg: ev.Reg, D: d, Ok: true, R: emptyRes(), R2: emptyRes(), Perm: []int{}, RoundingAfter: []tr.Amt{}}
+			func() {
+				defer func() {
+					if p := recover(); p != nil {
+						e.Ok2, e.Err2 = false, fmt.Sprintf("panic:%v", p)
+					}
+				}()
+				e.R = proj()
+				err := conv()
+				e.Ok2 = err == nil
+				if err != nil {
+					e.Err2 = err.Error()
+				}
+				e.R2 = proj()
+			}()
+			w.Emit(e)
+		}
+		if x := reparse(); x != nil && x.Currency != "MXN" {
+			x.ExchangeRates = append(x.ExchangeRates, rate(x.Currency))
+			probe("invoice", func() jRes { return projectBill(invoiceBill(x)) }, func() error { _, err := x.ConvertInto("MXN"); return err })
+		}
+		if data, err := docJSON(d, "order", reg, explicitRule); err == nil {
+			o := new(bill.Order)
+			if json.Unmarshal(data, o) == nil && o.Calculate() == nil && o.Currency != "MXN" {
+				o.ExchangeRates = append(o.ExchangeRates, rate(o.Currency))
+				probe("order", func() jRes {
+					return projectBill(billDoc{lines: o.Lines, discounts: o.Discounts, charges: o.Charges, payment: o.Payment, totals: o.Totals})
+				}, func() error { _, err := o.ConvertInto("MXN"); return err })
+			}
+		}
+		dk := d
+		dk.Advances, dk.Dues = []jPay{}, []jPay{}
+		if data, err := docJSON(dk, "delivery", reg, explicitRule); err == nil {
+			o := new(bill.Delivery)
+			if json.Unmarshal(data, o) == nil && o.Calculate() == nil && o.Currency != "MXN" {
+				o.ExchangeRates = append(o.ExchangeRates, rate(o.Currency))
+				probe("delivery", func() jRes {
+					return projectBill(billDoc{lines: o.Lines, discounts: o.Discounts, charges: o.Charges, totals: o.Totals})
+				},
+					func() error { _, err := o.ConvertInto("MXN"); return err })
+			}
+		}
 	}
 	// Invert, twice
 	if x := reparse(); x != nil {
